@@ -223,6 +223,39 @@ func checkC06(w *Worker) {
 			}
 		}
 	}
+	// every period-aware command shape of the master list (global flags), on the window with a reduced set of bounds
+	shapes := shapeArgs(func(s cmdShape) bool { return s.Period })
+	smallBounds := []string{"", "2021/01/24", "2021/01/25", "2021/01/26", "today", "yesterday", "last7"}
+	w.Explore("all-period-aware-command-shapes", ExploreOpts{ShardDepth: 4}, func(x *Exec) {
+		si := x.Choose(len(shapes), "input:command-shape")
+		n := x.Choose(3, "input:days")
+		dates := make([]string, n)
+		for i := range dates {
+			dates[i] = c06Window[x.Choose(len(c06Window), "input:date")]
+		}
+		b := smallBounds[x.Choose(len(smallBounds), "input:begin")]
+		e := smallBounds[x.Choose(len(smallBounds), "input:end")]
+		l := c06Log(dates)
+		files := map[string]string{"food.yaml": bookText, "log.yaml": renderLog(l)}
+		args := []string{"--no-color", "--today", c06Today}
+		if b != "" {
+			args = append(args, "-b", b)
+		}
+		if e != "" {
+			args = append(args, "-e", e)
+		}
+		c := appCase{Args: append(args, shapes[si]...), Files: files}
+		r := runApp(c)
+		sel := refFilter(l, b, e)
+		ref := runApp(appCase{Args: append([]string{"--no-color", "--today", c06Today}, shapes[si]...), Files: map[string]string{"food.yaml": bookText, "log.yaml": renderLog(sel)}})
+		x.Obs(r.Key())
+		name := strings.Join(shapes[si], " ")
+		x.Case(fmt.Sprint(name, dates, b, e), len(sel) > 0 && len(sel) < len(l))
+		if r.Key() != ref.Key() {
+			x.Violate("C06|"+name+"|global|wrong-selection", fmt.Sprintf("`%s`, log days %v, begin=%q end=%q\nprinted:\n%s\nwith the other days deleted and no period the same command prints:\n%s", c.shell(), dates, b, e, r.String(), ref.String()),
+				map[string]interface{}{"cmd": c.shell(), "observed": r.String(), "expected": ref.String()})
+		}
+	})
 	if w.Tier == "quick" {
 		w.Explore("utc-global-alldates-le2days", ExploreOpts{ShardDepth: 6, Budgets: map[string]int{"layout:position": 0, "env:tz": 0}}, period(true, 2, true))
 		w.Explore("utc-global-window-le3days", ExploreOpts{ShardDepth: 6, Budgets: map[string]int{"layout:position": 0, "env:tz": 0}}, period(false, 3, true))
